@@ -81,6 +81,18 @@ def run(tier, seed):
             ncorr += 1
             mm += corr_one(drv, net, cfg)
         search_one(ck, net, cfg, seed)
+        # the same network restored from a checkpoint into a second instance (another way of building a MADE): buffers that are
+        # rebuilt or skipped on loading must leave the connectivity as it was
+        if cfg["dp"] == 0.0:
+            res2 = attempt(build, cfg, seed)
+            if res2[0] == "ok":
+                import copy as _copy
+                ld = attempt(res2[1].load_state_dict, _copy.deepcopy(net.state_dict()))
+                if ld[0] == "ok":
+                    ck.count("restored-from-checkpoint")
+                    if drv is not None:
+                        mm += [dict(m_, restored=True) for m_ in corr_one(drv, res2[1], cfg)]
+                    search_one(ck, res2[1], cfg, seed, " [restored from a state dict]")
     # the same networks built in the opposite order, in a FRESH process: state kept at class or module level (a cache of
     # masks, say) makes a network depend on which networks were built before it
     import json as _json
@@ -162,7 +174,7 @@ def corr_one(drv, net, cfg):
     return out
 
 
-def search_one(ck, net, cfg, seed):
+def search_one(ck, net, cfg, seed, how=""):
     """perturb input j (all rows): blocks 0..j must not change, bit for bit"""
     F, M = cfg["F"], cfg["M"]
     g = tgen(seed, "x", F, cfg["H"], cfg["B"])
@@ -184,8 +196,8 @@ def search_one(ck, net, cfg, seed):
                 blk = same[:, i * M:(i + 1) * M]
                 if not bool(blk.all()):
                     ck.finding("MADE:block-depends-on-later-input:copy%d:%s" % (cfg["copy"], cfg["kind"]),
-                               "output block %d changed when input %d was perturbed (%s mode), cfg=%s" % (i, j, mode, cfg),
-                               {"search": "perturb", "cfg": cfg, "mode": mode, "input": j, "block": i, "seed": seed})
+                               "output block %d changed when input %d was perturbed (%s mode), cfg=%s%s" % (i, j, mode, cfg, how),
+                               {"search": "perturb", "cfg": cfg, "mode": mode, "input": j, "block": i, "seed": seed, "how": how.strip()})
                     return
 
 
